@@ -358,7 +358,8 @@ class C03(Check):
         except Exception as e:   # noqa
             site = "%s@json.loads" % type(e).__name__
         clause = "unanswered-or-stopped"
-        case = {"kind": "one", "line": line.hex() if len(line) < 4000 else None, "label": label,
+        keep = len(line) < 4000 or label not in dict(self.hostile)      # lines that cannot be found again by label
+        case = {"kind": "one", "line": line.hex() if keep else None, "label": label,
                 "v1": v1, "pending": pending, "history": history}
         vs.append(Violation("C03", "C03:%s:%s" % (clause, site or o.exc or "bad-reply"), case, None,
                             {"raw": o.raw[:200], "exc": o.exc, "error": (o.error or "")[:200]},
@@ -391,7 +392,8 @@ class C03(Check):
                     reply2, exc2 = None, "raised"
                 if exc2 is None and isinstance(reply2, dict) and reply2 != o.reply:
                     vs.append(Violation("C03", "C03:line-layer-changes-the-answer:%s" % label.split("-")[0],
-                                        {"kind": "one", "label": label, "line": line.hex() if len(line) < 4000 else None,
+                                        {"kind": "one", "label": label,
+                                         "line": line.hex() if (len(line) < 4000 or label not in dict(self.hostile)) else None,
                                          "v1": v1, "pending": pending, "history": None}, None,
                                         {"over_the_line": o.reply, "line_bytes": len(line)},
                                         {"protocol_object_answers": reply2}, "transport"))
